@@ -208,7 +208,7 @@ func workerMain() {
 	var hashes []string
 	rl := newRaceLog()
 	knownSeen := map[string]int{}
-	unknownRuns := 0
+	unknownRuns, hangRuns := 0, 0
 	for run := *fFrom; run < *fTo; run++ {
 		c := generateTier(*fProp, runSeedFor(*fSeed, *fProp, run), run, *fTier)
 		c.Seed, c.Tier = *fSeed, *fTier
@@ -319,7 +319,13 @@ func workerMain() {
 			if unknown {
 				unknownRuns++
 			}
-			if unknownRuns >= *fMaxViol {
+			for _, v := range viols {
+				if v.Class == "hang" {
+					hangRuns++
+				}
+			}
+			// every hanging call burns its whole step budget: a few are enough
+			if unknownRuns >= *fMaxViol || hangRuns >= 2 {
 				st.Notes["stopped_early_too_many_violations"]++
 				break
 			}
